@@ -41,9 +41,11 @@ Section Bridge.
              (fst s) (snd s) =
     fold_step_fp XV tm yv xv respond cutoff_after metric fp st fhmin i tr s.
   Proof.
-    unfold gen_step, fold_step_fp, row_of, data_call_fp, pred_call. rewrite bridge_split.
-    rewrite y_at_times, y_at_values, y_at_length.
-    destruct ((i =? 0) || is_refit st); reflexivity.
+    (* semantic: unfold both sides, normalise the slices, decide the fit-or-update condition by
+       cases on its atoms (any boolean rearrangement of the condition still proves) *)
+    unfold gen_step, fold_step_fp, row_of, data_call_fp, pred_call. rewrite ?bridge_split.
+    cbv beta iota zeta. rewrite ?y_at_times, ?y_at_values, ?y_at_length.
+    destruct (i =? 0); destruct st; reflexivity.
   Qed.
 
   Theorem bridge_step st fhmin i tr s :
@@ -51,9 +53,9 @@ Section Bridge.
              tr (fst s) (snd s) =
     fold_step XV tm yv xv respond cutoff_after metric st fhmin i tr s.
   Proof.
-    unfold gen_step, fold_step, row_of, data_call, pred_call, fit_call. rewrite bridge_split.
-    rewrite y_at_times, y_at_values, y_at_length.
-    destruct ((i =? 0) || is_refit st); reflexivity.
+    unfold gen_step, fold_step, row_of, data_call, pred_call, fit_call. rewrite ?bridge_split.
+    cbv beta iota zeta. rewrite ?y_at_times, ?y_at_values, ?y_at_length.
+    destruct (i =? 0); destruct st; reflexivity.
   Qed.
 
   (* the tie that catches a swap of the metric's arguments: whatever the metric, the score stored in
